@@ -36,9 +36,9 @@ TCall == /\ c <= N
                 narrowed == IF cell.par = "" THEN {""} ELSE alive[key] \cap ok
             IN /\ hits' = Bump(hits, cell.cell)
                /\ IF r.panic # "" THEN
-                    /\ Record([i |-> c, kind |-> "panic", cell |-> cell.cell, with |-> 0, nd |-> r.nd]) /\ UNCHANGED <<alive, pin>>
+                    /\ Record([i |-> c, kind |-> "panic", cell |-> cell.cell, with |-> 0, nd |-> r.nd, par |-> ""]) /\ UNCHANGED <<alive, pin>>
                   ELSE IF ok = {} THEN
-                    /\ Record([i |-> c, kind |-> "wrong-value", cell |-> cell.cell, with |-> 0, nd |-> r.nd]) /\ UNCHANGED <<alive, pin>>
+                    /\ Record([i |-> c, kind |-> "wrong-value", cell |-> cell.cell, with |-> 0, nd |-> r.nd, par |-> ""]) /\ UNCHANGED <<alive, pin>>
                   ELSE IF narrowed = {} THEN
                     /\ Record([i |-> c, kind |-> "inconsistent", cell |-> cell.cell, with |-> pin[key], nd |-> r.nd, par |-> cell.par])
                     /\ UNCHANGED <<alive, pin>>
